@@ -2,6 +2,8 @@ CONSTANTS
   Depth = 5
   EmitZero = FALSE
   DescUnits = {"Count", "Milliseconds"}
+  HistVals = {"v100"}
+  HistCounts = {1}
 SPECIFICATION Spec
 INVARIANT Emit
 INVARIANT UnitInv
